@@ -96,6 +96,9 @@ def check(ctx, rep):
     rep.rule("R17j", "every pass of a repeat starts from the element's initial state: on re-entry cmdRepeat re-establishes each register that the "
              "commands ordered after tal:repeat (content, attributes, omit-tag) can change", floor=1)
     rep.rule("R17g", "keyword discriminators of one if/elif chain index the same position", floor=0)
+    rep.rule("R17l", "the content, condition, attributes and omit-tag commands treat the value of their expression as TAL prescribes - nothing, "
+             "default, and real values including 0, the empty string and empty sequences: each handler is evaluated by the walker on "
+             "representative values and the interpreter's registers are compared", floor=3)
     rep.rule("R17k", "TALES expressions have their prescribed value: Context.evaluate is evaluated by the walker on representative expressions "
              "(alternation, exists / nocall / not / string prefixes, nothing / default, sub-paths) over a small context of true, false, "
              "empty and missing names", floor=1)
@@ -565,6 +568,9 @@ def check(ctx, rep):
     # ------------------------------------------------------------------ R17k
     tales_evaluation_obligations(ctx, rep, "R17k", tales)
 
+    # ------------------------------------------------------------------ R17l
+    command_evaluation_obligations(ctx, rep, "R17l", mod, tales)
+
     # ------------------------------------------------------------------ R17i
     ctxcls = tales.classes.get("Context")
     ev = ctxcls.methods.get("evaluate") if ctxcls else None
@@ -783,3 +789,121 @@ def tales_evaluation_obligations(ctx, rep, rule, tales):
             "; ".join(problems[:4]) if problems else ("" if decided_enough else f"the walker could follow only {n} expressions (not: {undecided[:3]})"),
             key=f"{rule}|evaluate", nontrivial=decided_enough)
     rep.extra["tales_undecided"] = undecided
+
+
+# ---------------------------------------------------------------------------------------------- R17l
+def command_evaluation_obligations(ctx, rep, rule, mod, tales):
+    from ..paths import Const, PathLimit, Walker
+
+    prog = ctx.prog
+    interp = mod.classes.get("TemplateInterpreter")
+    if interp is None:
+        rep.fail(rule, "TemplateInterpreter", detail="interpreter not found")
+        return
+    default = _DEFAULT
+    for name, vals in tales.globals.items():
+        if name.upper().startswith("DEFAULT") and len(vals) == 1 and isinstance(vals[0], ast.Constant) and isinstance(vals[0].value, str):
+            default = vals[0].value
+    VALUES = {"e:text": "x", "e:zero": 0, "e:none": None, "e:default": default, "e:empty": "", "e:list0": [], "e:list": [1], "e:false": False}
+    END, PC = 42, 7
+
+    def run(hname, args):
+        h = prog.resolve_method(interp, hname)
+        if h is None or len(h.params) < 3:
+            return None, None
+        holder = {}
+
+        def cv(call, target, st):
+            f = call.func
+            if isinstance(f, ast.Attribute) and f.attr == "evaluate" and "context" in norm(f.value):
+                a = holder["w"].cur_args or []
+                if a and a[0].kind == "const" and a[0].value in VALUES:
+                    v = VALUES[a[0].value]
+                    return Const(list(v) if isinstance(v, list) else v)
+                return None
+            return None
+
+        facts = {"self.symbolTable": Const({"SYM": END}), "self.programCounter": Const(PC), "self.outputTag": Const(1), "self.tagContent": Const(None),
+                 "self.movePCForward": Const(None), "self.originalAttributes": Const({}),
+                 "self.currentAttributes": Const([("href", "old"), ("title", "t"), ("class", "c"), ("id", "i")])}
+        w = Walker(prog, ctx.resolver, call_value=cv, exact_loops=True, unroll=8, max_paths=20000,
+                   inline=lambda fn, t, d: d < 3 and t.bound_cls is not None and fn.cls is not None and fn.cls.module is mod)
+        holder["w"] = w
+        try:
+            paths = [p for p in w.run(h, interp, env={h.params[1]: Const(None), h.params[2]: Const(args)}, facts=dict(facts))]
+        except (PathLimit, RecursionError):
+            return h, None
+        outs = set()
+        for p in paths:
+            if p.kind == "raise":
+                outs.add(("raises", str(p.value)))
+                continue
+            regs = []
+            for r_ in ("programCounter", "outputTag", "tagContent", "movePCForward", "currentAttributes"):
+                v = p.state.facts.get("self." + r_)
+                regs.append(repr(v.value) if v is not None and v.kind == "const" else "?")
+            outs.add(tuple(regs))
+        if len(outs) != 1:
+            return h, None
+        return h, next(iter(outs))
+
+    cases = []
+    for r in (0, 1):
+        kind = "replace" if r else "content"
+        for e in ("e:text", "e:zero", "e:list0", "e:false"):
+            cases.append(("cmdContent", (r, 0, e, "SYM"), f"tal:{kind} of {VALUES[e]!r}",
+                          {"programCounter": PC + 1, "outputTag": 0 if r else 1, "tagContent": (0, VALUES[e]), "movePCForward": END}))
+        cases.append(("cmdContent", (r, 0, "e:none", "SYM"), f"tal:{kind} of nothing",
+                      {"programCounter": PC + 1, "outputTag": 0 if r else 1, "tagContent": None, "movePCForward": END}))
+        cases.append(("cmdContent", (r, 0, "e:default", "SYM"), f"tal:{kind} of default",
+                      {"programCounter": PC + 1, "outputTag": 1, "tagContent": None, "movePCForward": None}))
+    cases.append(("cmdContent", (0, 1, "e:text", "SYM"), "tal:content structure", {"tagContent": (1, "x"), "movePCForward": END}))
+    for e, truthy in (("e:text", True), ("e:list", True), ("e:default", True), ("e:none", False), ("e:zero", False), ("e:empty", False),
+                      ("e:list0", False), ("e:false", False)):
+        cases.append(("cmdCondition", (e, "SYM"), f"tal:condition on {VALUES[e]!r}",
+                      {"programCounter": PC + 1, "outputTag": 1} if truthy else {"programCounter": END, "outputTag": 0, "tagContent": None}))
+        if e != "e:default":
+            cases.append(("cmdOmitTag", e, f"tal:omit-tag on {VALUES[e]!r}", {"programCounter": PC + 1, "outputTag": 0 if truthy else 1}))
+    cases.append(("cmdAttributes", [("href", "e:text"), ("title", "e:none"), ("class", "e:default"), ("n", "e:zero")],
+                  "tal:attributes with a text, nothing, default and 0",
+                  {"programCounter": PC + 1, "currentAttributes": {"href": "x", "n": "0", "class": "c", "id": "i"}}))
+    per = {}
+    for hname, args, label, want in cases:
+        h, got = run(hname, args)
+        slot = per.setdefault(hname, {"h": h, "n": 0, "problems": [], "undecided": 0})
+        if h is None:
+            continue
+        if got is None:
+            slot["undecided"] += 1
+            continue
+        if got[0] == "raises":
+            slot["n"] += 1
+            slot["problems"].append(f"{label}: raises {got[1]}")
+            continue
+        regs = dict(zip(("programCounter", "outputTag", "tagContent", "movePCForward", "currentAttributes"), got))
+        if any(regs[k] == "?" for k in want):
+            slot["undecided"] += 1
+            continue
+        slot["n"] += 1
+        for k, v in want.items():
+            have = regs[k]
+            if k == "currentAttributes":
+                try:
+                    same = dict(ast.literal_eval(have)) == v
+                except Exception:
+                    same = False
+            else:
+                same = have == repr(v)
+            if not same:
+                slot["problems"].append(f"{label}: {k} is {have}, prescribed {v!r}")
+    for hname, slot in per.items():
+        h = slot["h"]
+        if h is None:
+            rep.fail(rule, f"TemplateInterpreter.{hname}", detail="command handler not found")
+            continue
+        total = slot["n"] + slot["undecided"]
+        ok_n = slot["n"] * 2 >= total
+        rep.add(rule, f"{h.qualname}: registers after the command, by value of the expression [{slot['n']} of {total} cases evaluated]",
+                not slot["problems"] and ok_n, ctx.where(h),
+                "; ".join(slot["problems"][:3]) if slot["problems"] else ("" if ok_n else "the walker could not follow the handler on most cases"),
+                key=f"{rule}|{hname}", nontrivial=ok_n)
